@@ -448,7 +448,21 @@ func generate(rng *rand.Rand, steps int, profile string) ([]string, []string, ma
 					g.do(fmt.Sprintf("r %d %d", 0, 1+rng.Intn(g.nb()*8)))
 				}
 			}
-			g.do("lunmap")
+			if profile == "rebuild" && rng.Intn(3) == 0 {
+				// a foreground write lands between UpdateLUNMap's preload pass and its merge
+				g.tagN++
+				u := g.nb() * 8
+				off := rng.Intn(u)
+				n := 1 + rng.Intn(min(24, u-off))
+				if rng.Intn(2) == 0 { // whole blocks
+					off = 8 * rng.Intn(g.nb())
+					n = 8 * (1 + rng.Intn(min(3, g.nb()-off/8)))
+				}
+				g.do(fmt.Sprintf("lunmapw %d %d %d", off, n, g.tagN))
+				g.feat["write-inside-UpdateLUNMap"] = true
+			} else {
+				g.do("lunmap")
+			}
 			g.do("holes")
 			g.do("loc")
 			for rng.Intn(3) == 0 {
